@@ -369,6 +369,68 @@ def check_dual_orientation(ctx, name):
                                   "%.2e (s=6) / %.2e (s=9); own quadrature error at s=6 is %.2e" % (kind, flip, e6, e9, q6))
 
 
+def check_segment_orientation(ctx, name):
+    """Orientation flips next to a segment space: the space lives on one domain but, with include_boundary_dofs=True and
+    truncate_at_segment_edge=False, its support extends into the neighbouring domain.  That neighbour stored reversed and flagged in
+    swapped_normals must give the same operators as the consistently oriented grid (dense assembly)."""
+    mesh = meshes.get(name, ctx.seed)
+    v, e, d = mesh
+    doms = sorted(set(d.tolist()))
+    keep, flip = doms[0], doms[-1]
+    mesh2 = meshes.reverse_elements(mesh, [j for j in range(e.shape[1]) if d[j] == flip])
+    g1, g2 = SP.make_grid(mesh), SP.make_grid(mesh2)
+    sel = ("segments", (keep,))
+    combos = [("laplace", "double_layer", None, "P1", "P1"), ("laplace", "adjoint_double_layer", None, "P1", "P1"), ("laplace", "hypersingular", None, "P1", "P1"),
+              ("helmholtz", "hypersingular", 0.7 + 0.4j, "P1", "P1"), ("laplace", "single_layer", None, "P1", "P1"),
+              ("maxwell", "electric_field", 1.3, "RWG", "SNC"), ("maxwell", "magnetic_field", 1.3, "RWG", "SNC"), ("sparse", "identity", None, "RWG", "SNC")]
+    for family, opn, k, dk, tk in combos:
+        def mk(grid, kind, sw):
+            return SP.make_space(grid, {"kind": kind, "sel": sel, "inc": True, "trunc": False, "swapped": sw})
+        case = {"sub": "segment-orientation", "mesh": name, "family": family, "operator": opn, "k": k, "spaces": [dk, tk], "segment": int(keep), "flipped_domain": int(flip)}
+        sig = "orientation/segment-space/%s/%s" % (family, opn)
+        res = {}
+        try:
+            for tag, s_ in (("s6", 6), ("s9", 9)):
+                par = ops.params(4, s_)
+                A1 = ops.dense(ops.boundary(family, opn, mk(g1, dk, ()), mk(g1, dk, ()), mk(g1, tk, ()), k=k, par=par))
+                A2 = ops.dense(ops.boundary(family, opn, mk(g2, dk, (flip,)), mk(g2, dk, (flip,)), mk(g2, tk, (flip,)), k=k, par=par))
+                res[tag] = (A1, A2)
+        except Exception as exc:  # noqa: BLE001
+            ctx.violation(sig + "/exception:" + type(exc).__name__, case, repr(exc))
+            continue
+        # dofs are attached to vertices / edges, whose numbering the reversal does not touch; edge functions may change sign
+        A1, A2 = res["s9"]
+        if A1.shape != A2.shape:
+            ctx.violation(sig + "/shape", case, "%s vs %s" % (A1.shape, A2.shape))
+            continue
+        scale = float(np.max(np.abs(A1))) or 1.0
+
+        def signs(M1, M2):
+            """row / column signs (+-1) with M2 ~ Dr M1 Dc, from the largest entries."""
+            if dk == "P1":
+                return np.ones(M1.shape[0]), np.ones(M1.shape[1])
+            j0 = int(np.argmax(np.max(np.abs(M1), axis=0)))
+            dr = np.where(np.abs(M1[:, j0]) > 1e-8 * scale, np.sign(np.real(M2[:, j0] / np.where(M1[:, j0] == 0, 1, M1[:, j0]))), 1.0)
+            i0 = int(np.argmax(np.abs(M1[:, j0])))
+            dc = np.array([np.sign(np.real((M2[i, j] / M1[i, j]) * dr[i])) if abs(M1[i, j]) > 1e-8 * scale else 1.0
+                           for j in range(M1.shape[1]) for i in [int(np.argmax(np.abs(M1[:, j])))]])
+            dr[dr == 0] = 1.0
+            dc[dc == 0] = 1.0
+            return dr, dc
+
+        dr, dc = signs(A1, A2)
+        fix = lambda M: dr[:, None] * M * dc[None, :]  # noqa: E731
+        e6 = float(np.max(np.abs(fix(res["s6"][0]) - res["s6"][1]))) / scale
+        e9 = float(np.max(np.abs(fix(res["s9"][0]) - res["s9"][1]))) / scale
+        q6 = max(float(np.max(np.abs(res["s6"][i] - res["s9"][i]))) for i in (0, 1)) / scale
+        ctx.case((name, "segment-orientation", family, opn), sub="segment-orientation", sample=case if len(ctx.samples) < 5 else None)
+        ctx.observe("segment-orientation(singular order 9)", e9, 5e-6)
+        if e6 > 4 * q6 + 1e-11 or e9 > 5e-6 or (e6 > 1e-9 and e9 > 0.1 * e6):
+            ctx.violation(sig, dict(case, diff6=e6, diff9=e9, quad6=q6),
+                          "operator on segment %d with the neighbouring domain %d reversed + swapped_normals differs from the consistently oriented grid by "
+                          "%.2e (s=6) / %.2e (s=9); own quadrature error at s=6 is %.2e" % (keep, flip, e6, e9, q6))
+
+
 def check_bary_space_labelling(ctx, name, depth):
     """Spaces on the barycentric refinement (BC, RBC, DUAL0, DUAL1) are functions of the geometry: relabelling vertices / elements must
     give the same functions up to permutation and sign, and the permuted mixed mass matrices.  E2 over the coarse labelling generators."""
@@ -479,6 +541,8 @@ def run(ctx):
     ctx.cov["junction_labelling_states"] = ctx.states - before
     for name in (["tet"] if quick else ["tet", "octa", "cube12"]):
         check_dual_orientation(ctx, name)
+    for name in (["octa"] if quick else ["octa", "tet", "cube12"]):
+        check_segment_orientation(ctx, name)
     for name in (["strip4", "fan5"] if quick else ["strip4", "fan5", "fan4", "screen2x2", "tet", "octa"]):
         check_bary_space_labelling(ctx, name, 1 if quick else 2)
     ctx.cov["edge_adjacency_classes"] = len(classes[0])
@@ -498,6 +562,10 @@ def run(ctx):
 def replay(ctx, case):
     quick = False
     oplist = [op for op in operator_list(False) if op[0] == case.get("operator")] or operator_list(True)
+    if case["sub"] == "segment-orientation":
+        memoise_duffy()
+        check_segment_orientation(ctx, case["mesh"])
+        return
     if case["sub"] == "bary-labelling":
         check_bary_space_labelling(ctx, case["mesh"], len(case["word"]))
         return
